@@ -15,7 +15,7 @@ def recur(n):
     return r
 groups = [{'name': 'mem_alloc', 'entry': 'h_mem_alloc', 'enforce': None, 'dfcc': False, 'unwind': 7, 'timeout': 300, 'properties': ['C03', 'C02', 'C01'],
            'object_bits': 8}]
-for fn, props in (('single', ['C02']), ('write', ['C02']), ('dup', ['C02', 'C03', 'C01']), ('splice', ['C02', 'C03', 'C01']), ('free', ['C01', 'C09', 'C02'])):
+for fn, props in (('single', ['C02']), ('write', ['C02']), ('splice_direct', ['C02', 'C03', 'C01']), ('dup', ['C02', 'C03', 'C01']), ('splice', ['C02', 'C03', 'C01']), ('free', ['C01', 'C09', 'C02'])):
     for nseg, tier in ((1, 'quick'), (2, 'quick'), (3, 'thorough')):
         if fn == 'splice':
             tier = 'thorough'       # measured: > 400 s per shape (symbolic offset/size through ubuf_block_common_splice)
